@@ -202,9 +202,9 @@ P("C11", "proof", "Lean 4 theorems for both encodings (render lemma: pushing the
   "(unix_normalize_keeps_root), and normalising again returns the same bytes (unix_normalize_idempotent). "
   "Proved in Lean for every Windows path that does not start like a prefix or has a complete disk / device-namespace / "
   "UNC prefix, and whose names contain no `:`: the same four statements (C11b.win_normalize_comps, "
-  "win_normalize_no_dots, win_normalize_keeps_head — prefix and root are kept —, win_normalize_idempotent, byte for byte).",
-  "Partial: Windows paths with a verbatim prefix (`push` rebuilds them from components on every step) and paths that "
-  "start like a prefix without forming a complete one are decided by the oracle (fold computed independently on the "
+  "win_normalize_no_dots, win_normalize_keeps_head — prefix and root are kept —, win_normalize_idempotent, byte for byte). Windows paths with a complete VERBATIM prefix (followed by nothing or a separator) and portable names: the same (C12d.win_normalize_verbatim, win_normalize_verbatim_no_dots), via the render-then-parse lemma for the component buffer that push rebuilds.",
+  "Partial: paths that start like a prefix without forming a complete one, and verbatim-disk prefixes directly followed "
+  "by a name (`\\\\?\\C:x`), are decided by the oracle (fold computed independently on the "
   "implementation's components, second normalisation compared byte for byte, separator scan) on a component-level "
   "domain and long random `.`/`..` mixes. The colon hypothesis is real: normalize(`a\\C:`) pushes `C:` back as a "
   "drive (names with `:` are invalid on Windows, so this is outside 'well-formed'). absolutize = join onto cwd then "
@@ -212,23 +212,25 @@ P("C11", "proof", "Lean 4 theorems for both encodings (render lemma: pushing the
   theorems=["TP.C11.unix_normalize_comps", "TP.C11.unix_normalize_no_dots", "TP.C11.unix_normalize_keeps_root",
             "TP.C11.unix_normalize_idempotent", "TP.C11.render_shape", "TP.C11.normFold_comps_shape",
             "TP.C11b.win_normalize_comps", "TP.C11b.win_normalize_no_dots", "TP.C11b.win_normalize_keeps_head",
-            "TP.C11b.win_normalize_idempotent", "TP.C11b.pushAll_names", "TP.C11b.normFold_pre"],
-  modules=["TypedPathVerif.Props.C11b"],
+            "TP.C11b.win_normalize_idempotent", "TP.C11b.pushAll_names", "TP.C11b.normFold_pre",
+            "TP.C12d.win_normalize_verbatim", "TP.C12d.win_normalize_verbatim_no_dots", "TP.C12d.pushAll_names_verbatim"],
+  modules=["TypedPathVerif.Props.C11b", "TypedPathVerif.Props.C12d"],
   rule=NONTRIV + "all strings over {sep, .., ., a} up to 6 tokens x prefixes, long random mixes; non-trivial = contains `.` or `..` and >= 2 components", design_ref="§5 C11")
 
 P("C12", "proof", "Lean 4 theorems (law B; list lemma on the dot split) + model/code correspondence; replacement clause by oracle",
   "Proved in Lean for both encodings: file_name is the last component iff it is a normal name (file_name_iff_last_normal), "
   "no file name means no stem and no extension, and stem/extension split the name at its last dot with the `..` and "
   "leading-dot exceptions so that stem + '.' + extension reproduce the name (stem_ext_split, leading_dot_no_extension; "
-  "rsplitDot_spec is the underlying pure list lemma). Windows replacement clause: for every base that does not start like a prefix or has a complete non-verbatim prefix, and every portable single name n, with_file_name gives file name n and a parent with the old parent's components (implicit root of a bare device-namespace / UNC prefix shown), or the join when there was no file name (C12c.win_with_file_name).",
+  "rsplitDot_spec is the underlying pure list lemma). Windows replacement clause: for every base that does not start like a prefix or has a complete non-verbatim prefix, and every portable single name n, with_file_name gives file name n and a parent with the old parent's components (implicit root of a bare device-namespace / UNC prefix shown), or the join when there was no file name (C12c.win_with_file_name). Verbatim-prefixed bases: C12d.win_with_file_name_verbatim (file name n; the parent has the old parent's components, root after the prefix written out).",
   "For Unix also the replacement clause: replacing the file name by a good single name n gives file name n and a parent "
   "with the old parent's components, or the join when there was no file name (C12b.unix_with_file_name). "
   "Partial: the replacement clause for Windows is decided by the oracle and the correspondence, not by a theorem (it "
   "needs the Windows append lemma and is subject to known finding K3). Model=code by differential testing.",
   theorems=["TP.C12.file_name_iff_last_normal", "TP.C12.no_file_name_no_stem_ext", "TP.C12.stem_ext_split", "TP.C12.leading_dot_no_extension", "TP.rsplitDot_spec",
             "TP.C12b.unix_with_file_name",
-            "TP.C12c.win_with_file_name", "TP.C12c.push_name", "TP.C12c.fileName_parent_of_comps"],
-  modules=["TypedPathVerif.Lemmas.DotSplit", "TypedPathVerif.Props.C12b", "TypedPathVerif.Props.C12c"],
+            "TP.C12c.win_with_file_name", "TP.C12c.push_name", "TP.C12c.fileName_parent_of_comps",
+            "TP.C12d.win_with_file_name_verbatim", "TP.C12d.push_name_verbatim"],
+  modules=["TypedPathVerif.Lemmas.DotSplit", "TypedPathVerif.Props.C12b", "TypedPathVerif.Props.C12c", "TypedPathVerif.Props.C12d"],
   rule=NONTRIV + "names over {. a b} exhaustively; non-trivial = file name containing a dot / path with a file name", design_ref="§5 C12")
 
 P("C13", "proof", "Lean 4 byte-level theorem (cut at the end of the stem) + model/code correspondence; Unix vs std and name/parent clauses by oracle",
